@@ -189,3 +189,48 @@ package retriever
 //@   nosafety
 //@   ensures neverPublishes: fileComplete[s.path] == old(fileComplete[s.path])
 //@   ensures tempRemoved: !old(s.closed) ==> !fileComplete[s.tempPath]
+
+// C19 kernel, ordering: the checkpoint is the only record of an unfinished dump, so it may be removed only once the
+// manifest has been published under its final name. removeDumpCheckpoint requires that; Dump is verified to call it
+// only on the path where writeManifest returned nil (and writeManifest's own contract says what that means).
+//@ func removeDumpCheckpoint(outputDir string) error
+//@   opaque
+//@   requires manifestFirst: fileComplete[joinPath(outputDir, manifestFileName)]
+//@   modifies fileComplete[joinPath(outputDir, dumpCheckpointFileName)]
+//@ func Dump(ctx context.Context, db graph.Database, driverName string, targets []GraphTarget, options DumpOptions) (DumpResult, error)
+//@   nosafety
+// Dump's other callees are outside this kernel: they may change any real state (nothing is assumed of them); the
+// ghost facts about published files are only changed by the file-system calls specified above.
+//@ func dumpGraph(ctx context.Context, db graph.Database, target GraphTarget, options DumpOptions, activeScrubber *scrubber, checkpoint *dumpGraphCheckpoint, persistCheckpoint func() error) (GraphManifest, GraphSchemaMetadata, GraphMetrics, error)
+//@   opaque
+//@   modifies everything
+//@ func validateCompletedDumpSources(ctx context.Context, db graph.Database, graphEntries []GraphManifest) error
+//@   opaque
+//@   modifies everything
+//@ func newDumpCheckpointIdentity(driverName string, targets []GraphTarget, options DumpOptions, activeScrubber *scrubber) (dumpCheckpointIdentity, error)
+//@   opaque
+//@   modifies everything
+//@ func loadCompatibleDumpCheckpoint(outputDir string, expected dumpCheckpointIdentity, targetCount int) (dumpCheckpoint, error)
+//@   opaque
+//@   modifies everything
+//@ func newMetricsManifest(graphCount int) MetricsManifest
+//@   opaque
+//@   modifies everything
+//@ func (s DumpOptions) validate() error
+//@   opaque
+//@   modifies everything
+//@ func newScrubber(configReader io.Reader, salt string) (*scrubber, error)
+//@   opaque
+//@   modifies everything
+//@ func (s *scrubber) forGraph() *scrubber
+//@   opaque
+//@   modifies everything
+//@ func (s *scrubber) metadata() ScrubMetadata
+//@   opaque
+//@   modifies everything
+//@ func newManifest(driverName string, codec CompressionCodec, compressionLevel int, scrub ScrubMetadata, graphCount int) Manifest
+//@   opaque
+//@   modifies everything
+//@ func addActionCounts(target map[string]int, source map[string]int)
+//@   opaque
+//@   modifies everything
